@@ -3,7 +3,9 @@ SPEC = {
     "level_text": "Theorems (Coq, all address lists of any length): betterRDNSS returns the minimum under rank = (not stable, class ULA<GUA<link-local<other, address), which is proved to be a strict total order (irreflexive, transitive, total; equal ranks = equal addresses); the wildcard server is the address of an eligible listed entry (IPv6, not deprecated/temporary/tentative) whose rank is minimal among all eligible entries, hence a function of the SET of listed entries (permutation- and multiplicity-invariant); no eligible entry or a listing failure is an error; the option is exactly [wildcard server] ++ static servers with the stanza's lifetime, and an accepted server list is strictly ascending, contains exactly the non-:: servers written, independent of Go's map iteration order. The executable models of RDNSS.current/betterRDNSS/isStable/isEUI64/Apply and parseRDNSS are tied to the real code by differential runs (plugin with injected address lists; config.Parse on generated TOML).",
     "level_note": "Trusted: Coq kernel + vm_compute; the Go drivers and the rendering of cases; net/netip IsPrivate/IsGlobalUnicast/IsLinkLocalUnicast (incl. their IPv4-mapped branches), Addr.Less/Compare and netip.ParseAddr (used by the driver to lex server strings) are modelled arithmetically and sampled by the correspondence; go-toml decoding is outside the model.",
     "drivers": [{"pkg": "internal/plugin", "test": "TestVerifC14"},
-                {"pkg": "internal/config", "test": "TestVerifC14Config"}],
+                {"pkg": "internal/config", "test": "TestVerifC14Config"},
+                # the rtnetlink layer that produces the addresses and their flags (shared with C13)
+                {"pkg": "internal/system", "test": "TestVerifC13Addresser", "corr_module": "Corr.C13sys"}],
     "rule": "plugin driver: bounded-exhaustive over every sequence with repetition of length <= 3 (quick) / <= 4 (thorough) of a 15-entry "
             "pool covering class (ULA, GUA, link-local, loopback, multicast) x stability source (valid-forever, manage-temporary, "
             "stable-privacy, EUI-64 pattern, none) x exclusion (deprecated, temporary, tentative, IPv4), one address with two flag sets; "
